@@ -468,3 +468,37 @@ Proof.
   exists [(VInt 7, VInt 1); (VInt 3, VInt 2)], [(VInt 3, VInt 2); (VInt 7, VInt 1)].
   split; [reflexivity|]. split; [apply perm_swap|]. vm_compute. discriminate.
 Qed.
+
+(* ------------------------------------------------------------------ non-vacuity examples *)
+(* an Array and a List, different floats (-0.0 / +0.0) inside, well-formed, eq: the hypothesis of
+   v_eq_hash is satisfiable by values that are not identical *)
+Definition ex_a : value := VSeq KArray [VFloat 9223372036854775808; VFloat 4607182418800017408; VStr [72; 105]]%N.
+Definition ex_b : value := VSeq KList [VFloat 0; VFloat 4607182418800017408; VStr [72; 105]]%N.
+Lemma ex_eq_hash_nonvacuous : forall tl,
+  ex_a <> ex_b /\ v_wf ex_a = true /\ v_wf ex_b = true /\ v_cmp tl ex_a ex_b = Some 0%Z.
+Proof. intros tl. split; [discriminate|]. destruct tl; vm_compute; auto. Qed.
+
+(* a Table of three bindings (a nested List as one value) and the same bindings in another order *)
+Definition ex_m : list (value * value) :=
+  [(VInt 5, VSeq KList [VInt 1; VInt 2]); (VInt 10, VSeq KList []); (VInt 0, VSeq KList [VInt 3])].
+Definition ex_m' : list (value * value) :=
+  [(VInt 0, VSeq KList [VInt 3]); (VInt 5, VSeq KList [VInt 1; VInt 2]); (VInt 10, VSeq KList [])].
+Lemma ex_map_perm_nonvacuous : v_wf (VMap KTable ex_m) = true /\ Permutation ex_m ex_m' /\ ex_m <> ex_m'.
+Proof.
+  split; [vm_compute; reflexivity|]. split; [|discriminate].
+  unfold ex_m, ex_m'. apply Permutation_sym. eapply perm_trans; [apply perm_swap|]. apply perm_skip. apply perm_swap.
+Qed.
+
+Lemma ex_copy_nonvacuous : v_wf (VMap KTable ex_m) = true /\ v_copy (VMap KTable ex_m) = Some (VMap KTable ex_m).
+Proof. split; vm_compute; reflexivity. Qed.
+
+Lemma ex_assign_nonvacuous :
+  v_wf ex_b = true /\ v_assign (VSeq KArray [VInt 1]) ex_b = Some (VSeq KArray [VFloat 0; VFloat 4607182418800017408; VStr [72; 105]]%N).
+Proof. split; vm_compute; reflexivity. Qed.
+
+Lemma ex_swap_nonvacuous : v_swap ex_a (VSeq KArray []) = Some (VSeq KArray [], ex_a).
+Proof. reflexivity. Qed.
+
+Lemma ex_float_nonvacuous :
+  (0 < M64)%N /\ f_is_nan 0 = false /\ f_is_nan 9223372036854775808 = false /\ float_cmp 0 9223372036854775808 = 0%Z.
+Proof. vm_compute. auto. Qed.
